@@ -10,7 +10,7 @@ from ..core.explorer import explore, run_once
 PROPERTY = "C19"
 LEVEL = "model_checking"
 RULE = ("all request sequences of depth D (quick 7, thorough 10) x all predict-hook answers (accept/decline, a free choice at every "
-        "consultation) x train_step in {-1,1,2,3} and five schedules in which the user changes train_step after j requests x initially trained or not x hook present or absent x {SurrogateModelScikit, "
+        "consultation) x train_step in {-1,1,2,3} five schedules in which the user changes train_step after j requests, four with a training set loaded beforehand x initially trained or not x hook present or absent x {SurrogateModelScikit, "
         "SurrogateModelSMT with stub regressors; SurrogateModelEval}. After every request the implementation state (trained, "
         "eval_counter, predict_counter, training set, fit calls, returned object) is compared with the reference automaton. "
         "states = distinct canonical implementation states reached; transitions = distinct (state, answer) steps; "
@@ -92,7 +92,10 @@ def make(wrapper, step, trained0, hook):
 def body_factory(wrapper, step, trained0, hook, depth, col):
     """step: an int, or ("switch", j, s1, s2): train_step is s1 for the first j requests and is then set to s2 by the user
     (as artap's own surrogate example does after its DoE phase)."""
-    schedule = step if isinstance(step, tuple) else None
+    schedule = step if isinstance(step, tuple) and step[0] == "switch" else None
+    preload = step[1] if isinstance(step, tuple) and step[0] == "preload" else 0
+    if preload:
+        step = step[2]
     if schedule is not None:
         step = schedule[2]
 
@@ -104,6 +107,9 @@ def body_factory(wrapper, step, trained0, hook, depth, col):
         out = []
         # reference automaton
         r_tr, r_ev, r_pr, r_data, r_fits = (trained0 if wrapper != "eval" else True), 0, 0, [], 0
+        for j in range(preload):          # a training set loaded beforehand (add_data / read_from_data_store): data, not evaluations
+            s.add_data([9.0 + j], [81.0 + j])
+            r_data.append(9.0 + j)
         trace = []
         interesting = False
         for k in range(depth):
@@ -161,7 +167,7 @@ def body_factory(wrapper, step, trained0, hook, depth, col):
                 out.append(("C19:%s:counters-sum" % wrapper, "counters add up to %d after %d requests; %s" % (s.eval_counter + s.predict_counter, k + 1, desc)))
             if wrapper != "eval":
                 xd = [v[0] for v in s.x_data]
-                if xd != r_data or len(s.y_data) != len(r_data) or any(y is not None and list(y) != [v * v + 1.0] for y, v in zip(s.y_data, r_data)):
+                if xd != r_data or len(s.y_data) != len(r_data) or any(y is not None and list(y) != [v * v + 1.0] for y, v in list(zip(s.y_data, r_data))[preload:]):
                     out.append(("C19:%s:training-set" % wrapper, "x_data %r y_data %r, reference xs %r; %s" % (s.x_data, s.y_data, r_data, desc)))
                 if len(stub.fits) != r_fits:
                     kind = "never" if step == -1 else "step"
@@ -179,7 +185,7 @@ def body_factory(wrapper, step, trained0, hook, depth, col):
                 break
         ctx.digest = (tuple(trace), s.eval_counter, s.predict_counter)
         if interesting:
-            col.nontrivial((wrapper, schedule or step, trained0, hook, tuple(ctx.choices)))
+            col.nontrivial((wrapper, schedule or (preload, step), trained0, hook, tuple(ctx.choices)))
         return out
     body.step = step
     return body
@@ -213,6 +219,9 @@ def run(tier, seed):
             for trained0 in (False, True):
                 for hook in (False, True):
                     shards.append((wrapper, step, trained0, hook, depth))
+        for pre in (("preload", 1, 2), ("preload", 3, 5), ("preload", 2, 3), ("preload", 4, 1)):
+            for hook in (False, True):
+                shards.append((wrapper, pre, False, hook, depth if not hook else min(depth, 7)))
         for sched in (("switch", 3, -1, 2), ("switch", 5, -1, 4), ("switch", 4, 3, 2), ("switch", 2, 2, 3), ("switch", 3, 2, -1)):
             for hook in (False, True):
                 shards.append((wrapper, sched, False, hook, depth))
